@@ -816,6 +816,7 @@ def check_C17(chk, tier):
                         "stored entries are assumed nonzero (explicit zeros in the file of values are outside this harness); the unit scaling is checked in log form u_i + v_j + log|a_ij| <= 0 with equality on the matching, only when the routine returns 0 (return value 2 = mc64's 'scaling factors large' warning)",
                         "sizes n <= 3 (all patterns incl. structurally singular); the exp() applied by the ILU driver afterwards is a monotone bijection (assumed)"] + COMMON_ASSUME[2:]
     q = tier == "quick"
+    c17_heap(chk, tier)
     for prec in (["d"] if q else ["d", "s", "z"]):
         cs = []
         for n in (1, 2, 3):
@@ -828,6 +829,18 @@ def check_C17(chk, tier):
         run_phase(chk, "ldperm(job 5)/" + prec, H + "h_ldperm.c", list(dict.fromkeys(cs)), ["C17."], prec=prec, budget_s=220 if q else 1800, validate_samples=0, qtimeout_ms=5000 if q else 60000, path_timeout=60 if q else 600,
                   bounds="all 1x1, 2x2 patterns and (quick: selected; thorough: all) 3x3 patterns, symbolic nonzero magnitudes through the log model")
     c17_reach(chk, tier)
+
+
+def c17_heap(chk, tier):
+    """E1: one inductive step of mc64's indexed binary heap from an arbitrary valid state (covers call histories of any length)"""
+    chk.assumptions += ["E1 heap step: representation invariant = Q(1..QLEN) distinct rows, L its inverse, heap order on D; heap capacity <= NB; keys range over NB+2 small integers "
+                        "(the routines use D only through comparisons, so every total preorder of the keys is realised; arbitrary doubles in the thorough tier at NB = 5)"]
+    nb = 7 if tier == "quick" else 10
+    hs = [e1.Harness("c17_heap_op%d_iway%d" % (op, iw), [E1H + "h17heap.c", REPO + "/SRC/mc64ad.c"], defs=["-DPREC_D", "-DNB=%d" % nb, "-DOP=%d" % op, "-DIWAY=%d" % iw], unwind=nb + 2, timeout=1200 if tier == "quick" else 3000)
+          for iw in (2, 1) for op in (1, 2, 3, 4)]
+    if tier != "quick":
+        hs += [e1.Harness("c17_heap_op%d_iway2_fullkeys" % op, [E1H + "h17heap.c", REPO + "/SRC/mc64ad.c"], defs=["-DPREC_D", "-DNB=5", "-DOP=%d" % op, "-DIWAY=2", "-DKEYS_FULL"], unwind=7, timeout=3000) for op in (1, 2, 3, 4)]
+    e1.run_harnesses(chk, hs, "C17 mc64 heap: one step from every valid state", "heap capacity %d (depth %d), every valid heap / index state, every position / row argument; insert, key update, delete-root, delete-at-position; min-heap (job 5) and max-heap" % (nb, nb.bit_length()))
 
 
 def c17_reach(chk, tier):
